@@ -39,6 +39,11 @@ K_ITEM31 = "on-up-without-pool-futures-marks-host-up-without-notifying-listeners
 K_DISCOUNT = "pool-shut-down-by-own-failure-stays-after-discounted-down-event"
 K_STALE_COUNT = "hostconnectionpool-open-count-still-counts-defunct-connection-down-event-discounted"
 K_ONUP_RACE = "on-up-completion-callback-races-with-futures-set-duplicate-on-up"
+K_REMOVED_RESTART = "on-up-or-on-down-for-a-removed-host-starts-a-reconnector"
+K_STRAY = "on-down-overtaken-by-on-up-leaves-reconnector-next-down-is-silent"
+K_ADD_PARTIAL = "partial-pool-failure-in-on-add-discounted-host-left-down-without-reconnector"
+K_UNKNOWN_DOWN = "host-of-unknown-state-marked-down-without-reconnector"
+K_ORPHAN = "reconnection-handler-completion-clears-the-slot-of-a-newer-handler-two-series"
 K_ONUP_STUCK = "on-up-completion-callback-races-with-futures-set-host-never-marked-up"
 
 
@@ -103,6 +108,7 @@ def run_history(seed):
 
         def on_remove(self, host):
             notes.append((w.now, 'listener', 'remove', host.endpoint.address, id(host)))
+            removed_at_log_index[id(host)] = len(sched_log())
 
     class RecordingPolicy(RoundRobinPolicy):
         def on_up(self, host):
@@ -121,9 +127,58 @@ def run_history(seed):
             notes.append((w.now, 'policy', 'remove', host.endpoint.address, id(host)))
             return RoundRobinPolicy.on_remove(self, host)
 
+    removed_at_log_index = {}        # id(host) -> length of cluster.scheduler.scheduled when listeners were told on_remove
+    stray_seen = {}                  # id(host) -> first time a live handler was seen although the host was marked up
+    cluster_box = []
+
+    def sched_log():
+        return cluster_box[0].scheduler.scheduled if cluster_box else []
+
+    def handler_started_after_removal(hid):
+        """Was a reconnection handler for this (removed) host object first scheduled after its on_remove?"""
+        idx = removed_at_log_index.get(hid)
+        if idx is None:
+            return None
+        first = {}
+        for i, x in enumerate(sched_log()):
+            h = getattr(x[1], '__self__', None)
+            if isinstance(h, _HostReconnectionHandler) and id(h.host) == hid and id(h) not in first:
+                first[id(h)] = i
+        return any(i >= idx for i in first.values())
+
+    def last_handler_addition(hid):
+        last = None
+        for x in sched_log():
+            h = getattr(x[1], '__self__', None)
+            if isinstance(h, _HostReconnectionHandler) and id(h.host) == hid:
+                last = h
+        return None if last is None else bool(last.is_host_addition)
+
     uids = iter(range(1, 100000))
     counters = {'quiescent_checks': 0, 'down_host_checks': 0, 'handlers_seen': 0, 'reconnector_conns': 0, 'removals_observed': 0,
                 'final_hosts': 0, 'final_hosts_of_unknown_state': 0, 'final_pools': 0, 'notifications': 0}
+
+    # observe Host.get_and_set_reconnection_handler from outside: which handler loses the host's slot to the completion callback of another one
+    import sys as _sys
+    import cassandra.pool as _pool
+    orphaned = set()
+    keep_alive = []
+    orig_gas = _pool.Host.get_and_set_reconnection_handler
+    if getattr(orig_gas, '_c25_watch', False):
+        orig_gas = orig_gas._c25_orig
+
+    def watched_gas(self, new_handler):
+        old = orig_gas(self, new_handler)
+        if new_handler is None and old is not None:
+            f = _sys._getframe(1)
+            caller = f.f_locals.get('self') if f.f_code.co_name == 'run' else None
+            if isinstance(caller, _HostReconnectionHandler) and old is not caller and not old._cancelled:
+                orphaned.add(id(old))
+                keep_alive.append(old)
+        return old
+    watched_gas._c25_watch = True
+    watched_gas._c25_orig = orig_gas
+    _pool.Host.get_and_set_reconnection_handler = watched_gas
 
     with env:
         prof = ExecutionProfile(load_balancing_policy=RecordingPolicy(), request_timeout=5.0, retry_policy=FallthroughRetryPolicy())
@@ -139,6 +194,7 @@ def run_history(seed):
         if proto < 3:
             cluster.set_core_connections_per_host(HostDistance.LOCAL, 1)
             cluster.set_max_connections_per_host(HostDistance.LOCAL, 2)
+        cluster_box.append(cluster)
         listener = Listener()
         cluster.register_listener(listener)
         sessions = []
@@ -179,21 +235,28 @@ def run_history(seed):
                     a = h.endpoint.address
                     n_live = len(live.get(id(h), ()))
                     if n_live > 1:
-                        viol.append(('two-live-reconnectors-for-one-host', "%d live reconnection handlers for host %s at t=%.2f (%s)" % (n_live, a, w.now, label), {}))
+                        viol.append(('two-live-reconnectors-for-one-host', "%d live reconnection handlers for host %s at t=%.2f (%s)" % (n_live, a, w.now, label),
+                                     {'a_live_handler_lost_its_slot_to_another_handlers_completion': any(id(x) in orphaned for x in live[id(h)]),
+                                      'slot_points_to_a_live_handler': any(x is h._reconnection_handler for x in live[id(h)])}))
                     if h.is_up is False:
                         counters['down_host_checks'] += 1
                         busy = h._currently_handling_node_up
                         if n_live == 0 and not busy and max_attempts is None:
                             viol.append(('down-host-without-reconnector', "host %s is down (is_up False, still a member) but no reconnection handler is scheduled at t=%.2f (%s)" % (
                                 a, w.now, label), {'host_reconnection_handler_set': h._reconnection_handler is not None,
-                                                   'handler_cancelled': getattr(h._reconnection_handler, '_cancelled', None)}))
+                                                   'handler_cancelled': getattr(h._reconnection_handler, '_cancelled', None), 'sessions': n_sessions,
+                                                   'a_session_has_an_open_pool': any(s_._pools.get(h) is not None and not s_._pools.get(h).is_shutdown for s_ in sessions),
+                                                   'last_handler_was_for_host_addition': last_handler_addition(id(h)),
+                                                   'listeners_ever_told_add_or_up': any(n[1] == 'listener' and n[4] == id(h) and n[2] in ('add', 'up') for n in notes)}))
+                    elif h.is_up and n_live and label != 'final':
+                        stray_seen.setdefault(id(h), w.now)
                     elif h.is_up and n_live and label == 'final':
                         # (in between, an on_down overtaken by an on_up may leave a handler that ends itself with its next successful attempt: not judged)
                         viol.append(('up-host-with-live-reconnector', "host %s is up but a reconnection handler is still scheduled at t=%.2f (%s)" % (a, w.now, label), {}))
                 for hid, hs in live.items():
                     if hid not in mem_ids:
                         viol.append(('removed-host-still-has-reconnector', "a reconnection handler for removed host %s is still scheduled at t=%.2f (%s)" % (
-                            hs[0].host.endpoint.address, w.now, label), {}))
+                            hs[0].host.endpoint.address, w.now, label), {'handler_started_after_removal': handler_started_after_removal(hid)}))
 
         def request(session, host, act='rows'):
             uid = next(uids)
@@ -301,6 +364,8 @@ def run_history(seed):
                 if h.is_up is False and not exhausted:
                     viol.append(('host-not-up-at-final-quiescence', "host %s has is_up=%r although its node has been healthy for 37 virtual seconds" % (a, h.is_up),
                                  {'live_handlers': len(live.get(id(h), ())), 'handling_node_up_flag': h._currently_handling_node_up, 'sessions': n_sessions,
+                                  'never_a_handler': last_handler_addition(id(h)) is None,
+                                  'listeners_ever_told_add_or_up': any(n[1] == 'listener' and n[4] == id(h) and n[2] in ('add', 'up') for n in notes),
                                   'reconnection_handler_set': h._reconnection_handler is not None}))
                 # what the observers were last told about this host object
                 for who in ('listener', 'policy'):
@@ -311,10 +376,14 @@ def run_history(seed):
                     if h.is_up is True and not told_up:
                         viol.append(('observer-not-told-up', "%s was last told %r about host %s at t=%.2f but the host is marked up at the final quiescence" % (
                             who, last[-1][2], a, last[-1][0]), {'who': who, 'sessions': n_sessions, 'last': last[-1][2],
+                                                                'previous': last[-2][2] if len(last) > 1 else None,
+                                                                'previous_at_same_instant': len(last) > 1 and abs(last[-2][0] - last[-1][0]) < 1e-3,
                                                                 'pools_needed': sum(1 for s in sessions if not s.is_shutdown)}))
                     if h.is_up is False and told_up and not exhausted:
                         viol.append(('observer-not-told-down', "%s was last told %r about host %s but the host is marked down at the final quiescence" % (who, last[-1][2], a),
-                                     {'who': who, 'handling_node_up_flag': h._currently_handling_node_up, 'live_handlers': len(live.get(id(h), ())), 'sessions': n_sessions}))
+                                     {'who': who, 'handling_node_up_flag': h._currently_handling_node_up, 'live_handlers': len(live.get(id(h), ())), 'sessions': n_sessions,
+                                      'last': last[-1][2], 'never_a_handler': last_handler_addition(id(h)) is None, 'reconnection_handler_set': h._reconnection_handler is not None,
+                                      'listeners_ever_told_add_or_up': any(n[1] == 'listener' and n[4] == id(h) and n[2] in ('add', 'up') for n in notes)}))
                 if h.is_up:
                     for si, s in enumerate(sessions):
                         pool = s._pools.get(h)
@@ -339,7 +408,11 @@ def run_history(seed):
                         between = [m for m in notes if m[4] == hid and m[1] != who and notes.index(prev) < notes.index(m) < notes.index(n)]
                         viol.append(('duplicate-on-up', "%s got on_up for host %s at t=%.2f although it had already been told %s at t=%.2f and no on_down in between" % (
                             who, n[3], n[0], state, prev[0]), {'who': who, 'previous': state, 'sessions': n_sessions, 'same_instant': abs(n[0] - prev[0]) < 1e-3,
-                                                               'other_observer_notified_in_between': bool(between)}))
+                                                               'other_observer_notified_in_between': bool(between),
+                                                               'live_reconnector_seen_while_host_up_before': hid in stray_seen and stray_seen[hid] <= n[0],
+                                                               'reconnection_attempt_while_told_up': any(
+                                                                   c.sim_creator == 'reconnector' and str(c.endpoint.address) == n[3] and prev[0] < c.sim_created_at <= n[0] + 1e-3
+                                                                   for c in env.net.conns)}))
                     state = k
                     prev = n
         # removed hosts are never reconnected: no reconnector connection to the address between on_remove and the next on_add of that address
@@ -354,12 +427,13 @@ def run_history(seed):
             for c in env.net.conns:
                 if c.sim_creator == 'reconnector' and str(c.endpoint.address) == a and t_rm + 1e-3 < c.sim_created_at < t_next - 1e-3:
                     viol.append(('removed-host-reconnected', "a reconnection attempt to removed host %s was made at t=%.2f (removed at t=%.2f, not re-added before)" % (
-                        a, c.sim_created_at, t_rm), {}))
+                        a, c.sim_created_at, t_rm), {'handler_started_after_removal': handler_started_after_removal(n[4])}))
                     break
         info['notes'] = [(round(n[0], 2),) + n[1:4] for n in notes][-40:]
         trace = tuple(x[:2] for x in w.trace)
         cluster.shutdown()
         w.settle(until=w.now + 30.0)
+    _pool.Host.get_and_set_reconnection_handler = orig_gas
     return viol, counters, info, trace, env
 
 
@@ -374,6 +448,23 @@ def classify(v, info):
     if mech == 'duplicate-on-up' and d.get('who') == 'listener' and d.get('previous') == 'up' and d.get('sessions', 0) >= 2 and d.get('same_instant') \
             and not d.get('other_observer_notified_in_between'):
         return K_ONUP_RACE
+    if mech == 'down-host-without-reconnector' and d.get('sessions', 0) >= 2 and d.get('a_session_has_an_open_pool') and d.get('last_handler_was_for_host_addition') \
+            and not d.get('host_reconnection_handler_set'):
+        return K_ADD_PARTIAL
+    if mech == 'down-host-without-reconnector' and d.get('last_handler_was_for_host_addition') is None and not d.get('listeners_ever_told_add_or_up') \
+            and not d.get('host_reconnection_handler_set'):
+        return K_UNKNOWN_DOWN
+    if mech == 'observer-not-told-up' and d.get('last') == 'down' and d.get('previous') == 'up' and d.get('previous_at_same_instant') and d.get('pools_needed', 0) >= 1:
+        return K_STRAY           # same interleaving, the on_up finished completely before on_down told its observers
+    if mech == 'two-live-reconnectors-for-one-host' and d.get('a_live_handler_lost_its_slot_to_another_handlers_completion'):
+        return K_ORPHAN
+    if mech in ('host-not-up-at-final-quiescence', 'observer-not-told-down') and d.get('never_a_handler') and not d.get('listeners_ever_told_add_or_up') \
+            and not d.get('reconnection_handler_set') and d.get('who', 'policy') == 'policy' and d.get('last', 'add') == 'add':
+        return K_UNKNOWN_DOWN
+    if mech in ('removed-host-still-has-reconnector', 'removed-host-reconnected') and d.get('handler_started_after_removal'):
+        return K_REMOVED_RESTART
+    if mech == 'duplicate-on-up' and d.get('previous') == 'up' and not d.get('same_instant') and (d.get('live_reconnector_seen_while_host_up_before') or d.get('reconnection_attempt_while_told_up')):
+        return K_STRAY
     if mech in ('host-not-up-at-final-quiescence', 'observer-not-told-down') and d.get('handling_node_up_flag') and d.get('live_handlers') == 0 \
             and d.get('sessions', 0) >= 2 and d.get('who', 'policy') == 'policy':
         # the other outcome of the same race: each completion callback finds the other (stale) future in the set, nobody finishes on_up
